@@ -92,6 +92,10 @@ class Report:
             else:
                 violations.append(o)
         # floors: an anchor that disappeared is a report about the checker's view of the code
+        fpath = os.path.join(VERIF, "rules", "floors.json")
+        if os.path.exists(fpath):
+            for rule, fl in json.load(open(fpath)).get(self.prop, {}).items():
+                self.floors.setdefault(rule, fl)
         for rule, fl in self.floors.items():
             n = self.instances.get(rule, 0)
             if n < fl:
